@@ -33,6 +33,7 @@ import KafkaVerif.Lemmas.Pages
 import KafkaVerif.Lemmas.RecordReader
 import KafkaVerif.Props.C02
 import KafkaVerif.Lemmas.ByteTokens
+import KafkaVerif.Lemmas.ByteItems
 import KafkaVerif.Lemmas.ConnReader
 import KafkaVerif.Lemmas.PageBuffer
 import KafkaVerif.Lemmas.RecordWriterPaged
@@ -298,70 +299,9 @@ theorem v1_wrapper_offsets (c : Crcs) (h1 : ∀ b, c.ieee b < M32) (h2 : ∀ b, 
 /-! ### both read paths on the same bytes
 
 `C02.readAll` (Model/MessageSetReader + Model/Batch, the C02 builder's model of message_reader.go / batch.go) consumes
-the token stream that `C02.tokenizeSet` reads off the BYTES; `clientFetch` is this file's model of the Client path.
-For message sets of uncompressed v2 batches (the sublanguage `Spec/ByteLayout` tokenizes) both are applied to the same
-reference-encoded bytes. -/
-
-def batchEntries (bs : List C02.BBatch) : List Entry := bs.map fun b => .batch b.frame
-def batchGroups (bs : List C02.BBatch) : List (Bool × List Rec) := bs.map fun b => (false, b.recs.map (recOfV2 b.frame))
-
-theorem encSetV2_eq (c : Crcs) (bs : List C02.BBatch) : C02.encSetV2 c.castagnoli bs = encSet c (batchEntries bs) := by
-  induction bs with
-  | nil => rfl
-  | cons b bs ih => simp [C02.encSetV2, batchEntries, encSet, encEntry, ih]
-
-open Model.RecordReader in
-theorem allGood_batches (c : Crcs) (dec : Int → Bytes → Option Bytes) (bs : List C02.BBatch)
-    (hframes : ∀ b ∈ bs, b.frame.WF) : AllGood c dec (batchEntries bs) (batchGroups bs) := by
-  induction bs with
-  | nil => exact .nil
-  | cons b bs ih =>
-    have hb : GoodBatch dec b.frame b.recs := ⟨hframes b (by simp), by simp [C02.BBatch.frame, codecOf], rfl⟩
-    have h0 : isControl b.frame.attributes = false := by simp [C02.BBatch.frame, isControl]
-    have := GoodEntry.batch (c := c) b.frame b.recs hb
-    rw [h0] at this
-    exact .cons this (ih fun b' hb' => hframes b' (by simp [hb']))
-
-theorem allRecords_layout (tagOf : Rec → Nat) (bs : List C02.BBatch) :
-    C02.allRecords (C02.layoutOf (fun f x => tagOf (recOfV2 f x)) bs) =
-      ((batchGroups bs).flatMap (·.2)).map (fun r => (r.offset, tagOf r)) := by
-  induction bs with
-  | nil => rfl
-  | cons b bs ih =>
-    simp only [C02.allRecords, C02.layoutOf, List.map_cons, List.flatMap_cons, batchGroups, List.map_append] at ih ⊢
-    rw [ih]
-    congr 1
-    simp [C02.BBatch.item, C02.Item.records, recOfV2, recOfV2c, C02.BBatch.frame]
-
-open Model.RecordReader in
-/-- `decoders_agree` on bytes, both paths, for message sets of uncompressed v2 batches (any number of batches, any
-records, compaction gaps as allowed by `LWF`): the Conn/Batch reader model, fed with the tokens read off the
-reference-encoded bytes, delivers exactly the records the Client.Fetch model decodes from the same bytes that lie at
-or above the fetch offset — same absolute offsets, same order, same content (`tagOf` is any digest of a record, e.g.
-an injective one). -/
-theorem decoders_agree_v2_bytes (c : Crcs) (h1 : ∀ b, c.ieee b < M32) (h2 : ∀ b, c.castagnoli b < M32)
-    (dec : Int → Bytes → Option Bytes) (tagOf : Rec → Nat) (bs : List C02.BBatch) (hframes : ∀ b ∈ bs, b.frame.WF)
-    (nb : Int) (hnb : 0 ≤ nb) (hwf : C02.LWF nb (C02.layoutOf (fun f x => tagOf (recOfV2 f x)) bs))
-    (o hwm : Int) (ho : 0 ≤ o) (hne : hwm ≠ o) (expired : Bool) :
-    ∃ toks, C02.tokenizeSet c.castagnoli (fun f x => tagOf (recOfV2 f x)) bs.length (C02.encSetV2 c.castagnoli bs) = some toks ∧
-      (C02.readAll .fixed expired o hwm toks).1 =
-        ((clientFetch c dec (C02.encSetV2 c.castagnoli bs)).filter (fun r => o ≤ r.offset)).map (fun r => (r.offset, tagOf r)) := by
-  obtain ⟨toks, ht, hout, _, _⟩ := C02.single_fetch_bytes c.castagnoli h2 (fun f x => tagOf (recOfV2 f x)) bs hframes nb hnb hwf
-    o hwm ho hne expired
-  refine ⟨toks, ht, ?_⟩
-  rw [hout, allRecords_layout, encSetV2_eq]
-  have hcf := (decoders_agree_client c h1 h2 dec _ _ (allGood_batches c dec bs hframes)).2
-  rw [hcf]
-  have hs : surfaced (batchGroups bs) = (batchGroups bs).flatMap (·.2) := by
-    simp only [surfaced]
-    congr 1
-    apply List.filter_eq_self.mpr
-    intro g hg
-    simp only [batchGroups, List.mem_map] at hg
-    obtain ⟨b, _, rfl⟩ := hg
-    rfl
-  rw [hs, List.filter_map]
-  rfl
+a token stream read off the BYTES; `clientFetch` is this file's model of the Client path.  Two tokenizers are
+composed with it below: this property's `tokenizeAll` (any attribute bits; complete responses) and, further down
+(`decoders_agree_items`), the C02 builder's `C02.tokenize` (any cut of the response). -/
 
 open Model.RecordReader in
 /-- `decoders_agree` on bytes for EVERY format the property names: any sequence of plain and compressed v2 batches
@@ -408,28 +348,75 @@ open Model.RecordReader Model.ConnReader in
 (`Model/ConnReader`: readHeader, readMessageV1 incl. wrappers and extractOffset, readMessageV2 incl. compressed
 batches) applied to a complete valid response returns exactly the records of the reference decoder at or above the
 fetch offset — keys, values, headers, timestamps (the append time for LogAppendTime batches), absolute offsets, order —
-EXACTLY: since fixes 4db07b4 / a925b8a / 795ac84 null and empty are told apart on this path too and both paths apply
-the timestamp type (before, the statement held only up to null ≈ empty); and that is what the Client.Fetch model
-returns from the same bytes, minus control batches.  (Wrappers carry a null key, as brokers write them: the Conn code skips 4 bytes there.) -/
+EXACTLY: since fixes 4db07b4 / a925b8a / 795ac84 / 314fa1c null and empty are told apart on this path too, both paths
+apply the timestamp type and both pass over control batches (before, the statement held only up to null ≈ empty and
+for sets without control batches); and that is, unconditionally, what the Client.Fetch model returns from the same bytes.  (Wrappers carry a null key, as brokers write them: the Conn code skips 4 bytes there.) -/
 theorem decoders_agree_content (c : Crcs) (h1 : ∀ b, c.ieee b < M32) (h2 : ∀ b, c.castagnoli b < M32)
     (dec : Int → Bytes → Option Bytes) (es : List Entry) (gs : List (Bool × List Rec)) (h : AllGood c dec es gs)
     (hkey : ∀ m, Entry.msg m ∈ es → codecOf m.attributes ≠ 0 → m.key = none) (o : Int) :
-    connFetch dec o (encSet c es) = some ((gs.flatMap (·.2)).filter (fun r => o ≤ r.offset)) ∧
-    ((∀ g ∈ gs, g.1 = false) →
-      connFetch dec o (encSet c es) =
-        some ((clientFetch c dec (encSet c es)).filter (fun r => o ≤ r.offset))) := by
+    connFetch dec o (encSet c es) = some ((surfaced gs).filter (fun r => o ≤ r.offset)) ∧
+    connFetch dec o (encSet c es) = some ((clientFetch c dec (encSet c es)).filter (fun r => o ≤ r.offset)) := by
   have hconn := connReadSet_encSet c h1 h2 dec es gs h hkey (encSet c es).length (encSet_length_ge c es)
-  have hfirst : connFetch dec o (encSet c es) = some ((gs.flatMap (·.2)).filter (fun r => o ≤ r.offset)) := by
+  have hfirst : connFetch dec o (encSet c es) = some ((surfaced gs).filter (fun r => o ≤ r.offset)) := by
     simp only [connFetch, hconn, Option.map_some]
-  refine ⟨hfirst, fun hnc => ?_⟩
-  rw [hfirst, (decoders_agree_client c h1 h2 dec es gs h).2]
-  have hs : surfaced gs = gs.flatMap (·.2) := by
+  exact ⟨hfirst, by rw [hfirst, (decoders_agree_client c h1 h2 dec es gs h).2]⟩
+
+open Model.RecordReader in
+/-- **Both read paths on the same bytes, with the C02 builder's own byte-level tokenizer.**  `its` is any sequence the
+reference encoder can emit (`C02.BItem`: plain and compressed v2 batches, v0/v1 messages, compressed wrappers; `enc` any
+compressor that `dec` inverts), laid out like a log (`LWF`, `Safe`).  The Conn/Batch reader model (`C02.readAll`,
+message_reader.go + batch.go) run on the tokens that `C02.tokenize` reads off the encoded bytes delivers exactly the
+records — absolute offsets and content digests `tagC ts key value headers`, in order — that the Client.Fetch model
+(`clientFetch`, protocol.RecordSet.ReadFrom) decodes from those same bytes at or above the fetch offset.
+(For responses cut after `n` bytes `C02.single_fetch_bytes` says what the Conn path delivers: `contained layout n`.) -/
+theorem decoders_agree_items (c : Crcs) (h1 : ∀ b, c.ieee b < M32) (h2 : ∀ b, c.castagnoli b < M32)
+    (dec : Int → Bytes → Option Bytes) (enc : Int → Bytes → Bytes) (hdec : ∀ k b, dec k (enc k b) = some b)
+    (hpos : ∀ k b, 0 < (enc k b).length) (tagC : Int → Option Bytes → Option Bytes → List Hdr → Nat)
+    (its : List C02.BItem) (hitems : ∀ it ∈ its, it.WF (cfgOf tagC c dec) enc) (hextra : ∀ it ∈ its, itemExtra it)
+    (nb : Int) (hnb : 0 ≤ nb) (hwf : C02.LWF nb (C02.layoutOfItems (cfgOf tagC c dec) enc its))
+    (o hwm : Int) (ho : 0 ≤ o) (hsafe : C02.Safe o (C02.layoutOfItems (cfgOf tagC c dec) enc its)) (hne : hwm ≠ o)
+    (expired : Bool) :
+    clientFetch c dec (C02.encItems (cfgOf tagC c dec) enc its) = surfaced ((its.map (descOf c enc)).map Desc.group) ∧
+    (C02.readAll .fixed expired o hwm
+        (C02.tokenize (cfgOf tagC c dec) ((C02.encItems (cfgOf tagC c dec) enc its).length + 1) .hdr (C02.encItems (cfgOf tagC c dec) enc its))).1 =
+      ((clientFetch c dec (C02.encItems (cfgOf tagC c dec) enc its)).filter (fun r => o ≤ r.offset)).map
+        (fun r => (r.offset, contentTag tagC r)) := by
+  have hsf := (C02.single_fetch_bytes (cfgOf tagC c dec) enc hdec hpos h1 h2 its hitems nb hnb hwf o hwm ho hsafe hne
+    expired (C02.encItems (cfgOf tagC c dec) enc its).length).1
+  simp only [List.take_length] at hsf
+  have hall := C02.contained_all (C02.layoutOfItems (cfgOf tagC c dec) enc its) (C02.encItems (cfgOf tagC c dec) enc its).length
+    (by rw [itemsSize_bytes]; exact Nat.le_refl _)
+  have hlay : C02.layoutOfItems (cfgOf tagC c dec) enc its = (its.map (descOf c enc)).map (Desc.item c (contentTag tagC)) := by
+    simp only [C02.layoutOfItems, List.map_map]
+    apply List.map_congr_left
+    intro it hit
+    exact item_descOf tagC c dec enc it (hitems it hit)
+  have hgood : ∀ d ∈ its.map (descOf c enc), d.Good c dec := by
+    intro d hd
+    simp only [List.mem_map] at hd
+    obtain ⟨it, hit, rfl⟩ := hd
+    exact good_descOf tagC c dec enc hdec it (hitems it hit) (hextra it hit)
+  have hcf : clientFetch c dec (C02.encItems (cfgOf tagC c dec) enc its) = surfaced ((its.map (descOf c enc)).map Desc.group) := by
+    rw [encItems_descs]
+    exact (decoders_agree_client c h1 h2 dec _ _ (allGood_descs c dec _ hgood)).2
+  refine ⟨hcf, ?_⟩
+  rw [hsf, hall, hlay, allRecords_descs, hcf]
+  have hs : surfaced ((its.map (descOf c enc)).map Desc.group) = ((its.map (descOf c enc)).map Desc.group).flatMap (·.2) := by
     simp only [surfaced]
     congr 1
     apply List.filter_eq_self.mpr
     intro g hg
-    simp [hnc g hg]
-  rw [hs]
+    simp only [List.mem_map] at hg
+    obtain ⟨d, ⟨it, hit, rfl⟩, rfl⟩ := hg
+    cases it with
+    | plain2 b => simp [descOf, Desc.group, C02.BBatch.frame, isControl]
+    | comp2 hdr codec recs =>
+      obtain ⟨_, h0, h8, _⟩ := hitems _ hit
+      simp [descOf, Desc.group, C02.comp2Frame, (codec_facts codec h0 h8).2.2]
+    | msg m => simp [descOf, Desc.group]
+    | wrap m codec inner => simp [descOf, Desc.group]
+  rw [hs, List.filter_map]
+  rfl
 
 open Model.RecordReader in
 section
